@@ -1,6 +1,6 @@
 use super::{Error, ShapeType};
 
-use crate::record::BBoxZ;
+use crate::record::{BBoxZ, PointZ};
 use byteorder::{BigEndian, LittleEndian, ReadBytesExt, WriteBytesExt};
 use std::io::{Read, Write};
 
@@ -29,8 +29,13 @@ pub struct Header {
 
 impl Default for Header {
     fn default() -> Self {
+        // not `BBoxZ::default()`: the default measure of a `PointZ` is NO_DATA,
+        // and the M range of a file that carries no measure must be 0
         Header {
-            bbox: BBoxZ::default(),
+            bbox: BBoxZ {
+                min: PointZ::new(0.0, 0.0, 0.0, 0.0),
+                max: PointZ::new(0.0, 0.0, 0.0, 0.0),
+            },
             shape_type: ShapeType::NullShape,
             file_length: HEADER_SIZE / 2,
             version: 1000,
